@@ -38,7 +38,7 @@ def budget(tier):
 def gen(rng, tier):
     fmt = "gff3" if rng.random() < 0.7 else "gtf"
     if fmt == "gff3":
-        feats = G.gff3_batch(rng, rng.randint(1, 9) if rng.random() > 0.03 else rng.choice([150, 400, 1050]), {"p_id": 0.7, "p_parent": 0.5, "seqids": ["chr1", "chr2"],
+        feats = G.gff3_batch(rng, rng.randint(1, 9) if rng.random() > 0.03 else rng.choice([150, 400, 1050, 2100]), {"p_id": 0.7, "p_parent": 0.5, "seqids": ["chr1", "chr2"],
                                                       "pool": [1, 5, 10, 20, 30], "types": ["gene", "mRNA", "exon"],
                                                       "ids": ["i%d" % k for k in range(3000)] if rng.random() < 0.5 else G.IDS},
                              unique_ids=True)
@@ -72,8 +72,16 @@ def gen(rng, tier):
     insp = {"form": rng.choice(["path", "list", "gen", "iter1", "db"]),
             "look_for": rng.sample(["featuretype", "chrom", "attribute_keys", "feature_count", "strand", "source"], rng.randint(1, 4)),
             "limit": rng.choice([None, None, 1, 2, n, n + 1, 0])}
+    db_delete_at = rng.choice([None, None, 3, 1005])
+    if n >= 1000 and rng.random() < 0.7:
+        # long source: make sure the "source modified while it is read" scenario is exercised across any internal batching
+        tr = None
+        db_delete_at = rng.choice([3, 500, 1005])
     return {"fmt": fmt, "feats": feats, "transform": tr, "checklines": rng.choice([0, 1, 2, 10]), "variants": variants,
-            "streams": streams, "inspect": insp}
+            "streams": streams, "inspect": insp,
+            "string_extras": {"pair": rng.random() < 0.3, "read_first": rng.random() < 0.5, "torn_then_reimport": rng.random() < 0.2,
+                              "short_writes": rng.random() < 0.3, "checklines": rng.choice([0, 1, 10])},
+            "db_delete_at": db_delete_at}
 
 
 def _d(case):
@@ -200,6 +208,74 @@ def run(case):
                 V.append(viol("C13.forms", "%s form (checklines=%d) gives a database different from the path form in %s: %d vs %d features" % (
                     label, v["checklines"], what, len(got["features"]), len(ref["features"])), kind="form_differs", form=sigform,
                     what=",".join(what)))
+
+        # ---- from_string specifics: the temporary copy of the text (its name, its lifetime, how it is written)
+        sx = case.get("string_extras") or {}
+        text = G.render_text(feats, _d(case))
+        if not V and ref is not None and sx.get("short_writes"):
+            # (buggify) every os.write() on a file in the world is a legal short write
+            r = call(node, {"op": "create", "h": "sw", "db": "sw.db", "data": {"form": "string", "text": text}, "transform": tr,
+                            "kw": dict(KW, checklines=sx["checklines"]), "short_writes": True})
+            if r["ok"]:
+                d = call(node, {"op": "dump", "h": "sw"})
+                if _strip(d["dump"]) != ref:
+                    V.append(viol("C13.forms", "string form under short writes gives %d features, the path form %d" % (
+                        len(d["dump"]["features"]), len(ref["features"])), kind="form_differs", form="string/short_writes"))
+                if r["kinds"].get("fs.write", 0):
+                    probes["string_form_with_short_write_buggify"] = 1
+            elif not r.get("injected"):
+                V.append(viol("C13.forms", "string form under short writes failed: %s %s" % (r["exc"], r["msg"]), kind="form_failed",
+                              form="string/short_writes", exc=r["exc"]))
+        if not V and sx.get("pair"):
+            r = call(node, {"op": "dataiter_pair", "text": text, "kw": {"checklines": sx["checklines"]}, "read_first": sx["read_first"]})
+            if not r["ok"]:
+                V.append(viol("C13.forms", "second of two iterators over the same string failed after the first was collected: %s %s" % (
+                    r["exc"], r["msg"]), kind="pair_failed", exc=r["exc"]))
+            elif len(r["features"]) != n:
+                V.append(viol("C13.forms", "second of two iterators over the same string yields %d of %d features" % (len(r["features"]), n),
+                              kind="pair_count"))
+            else:
+                probes["two_iterators_same_string"] = 1
+        if not V and ref is not None and sx.get("torn_then_reimport"):
+            # a process dies while writing its temporary copy (torn write); a later import of the same text in the
+            # same temp dir must not be affected by what it left behind
+            victim = w.node()
+            try:
+                w.call(victim, {"op": "create", "h": "t", "db": "torn.db", "data": {"form": "string", "text": text},
+                                "kw": dict(KW), "faults": [{"kind": "fs.write", "nth": 0, "mode": "torn"}]})
+                victim.close()
+            except Exception:
+                probes["torn_temp_copy_left_behind"] = 1
+            r = call(node, {"op": "create", "h": "after", "db": "after.db", "data": {"form": "string", "text": text}, "transform": tr,
+                            "kw": dict(KW, checklines=case["checklines"])})
+            if not r["ok"]:
+                V.append(viol("C13.forms", "string form after another process died writing its temp copy failed: %s %s" % (r["exc"], r["msg"]),
+                              kind="form_failed", form="string/after_torn", exc=r["exc"]))
+            else:
+                d = call(node, {"op": "dump", "h": "after"})
+                if _strip(d["dump"]) != ref:
+                    V.append(viol("C13.forms", "string form after another process died writing its temp copy gives %d features, path form %d" % (
+                        len(d["dump"]["features"]), len(ref["features"])), kind="form_differs", form="string/after_torn"))
+
+        # ---- a FeatureDB source that is modified (already delivered features deleted) while it is being read
+        if not V and case.get("db_delete_at") is not None and n > case["db_delete_at"] + 2 and tr is None:
+            r0 = call(node, {"op": "create", "h": "delsrc", "db": "delsrc.db", "data": _spec(case, "path", "ds.gff"),
+                             "kw": dict(KW, disable_infer_genes=True, disable_infer_transcripts=True)})
+            if r0["ok"]:
+                r = call(node, {"op": "create", "h": "deldst", "db": "deldst.db", "data": {"form": "list", "lines": []}, "from_db": "delsrc",
+                                "src": "deldst", "transform": {"kind": "delete_delivered", "h": "delsrc", "at": case["db_delete_at"], "n": 2},
+                                "kw": dict(KW, checklines=case["checklines"])})
+                if not r["ok"]:
+                    V.append(viol("C13.forms", "FeatureDB form with deletions of delivered features failed: %s %s" % (r["exc"], r["msg"]),
+                                  kind="form_failed", form="db/modified_while_read", exc=r["exc"]))
+                else:
+                    d = call(node, {"op": "dump", "h": "deldst", "relations": False})
+                    got_n = len([f for f in d["dump"]["features"] if f["cols"][1] != "gffutils_derived"])
+                    if got_n != n:
+                        V.append(viol("C13.forms", "FeatureDB form: %d of %d features arrived when already delivered features were deleted from "
+                                      "the source during the read" % (got_n, n), kind="form_differs", form="db/modified_while_read"))
+                    elif (r.get("ledger") or {}).get("deleted_from_source"):
+                        probes["source_db_modified_while_read"] = 1
 
         # ---- the iterator protocol itself, with EOF / failure placed relative to the window
         for si, s in enumerate(case["streams"]):
